@@ -106,6 +106,17 @@ func RunC17(c *Ctx) {
 				default:
 					v[j] = 1 + uint64(rng.Int63n(1<<30))
 				}
+				if i%4 == 3 {
+					// the whole 64-bit range, dense around the class boundaries
+					switch rng.Intn(3) {
+					case 0:
+						v[j] = (uint64(1) << uint(rng.Intn(64))) + uint64(rng.Intn(7)) - 3
+					case 1:
+						v[j] = rng.Uint64() >> uint(rng.Intn(64))
+					default:
+						v[j] = math.MaxUint64 - uint64(rng.Intn(3))
+					}
+				}
 				if v[j] == 0 {
 					v[j] = 1
 				}
